@@ -151,6 +151,36 @@ def gen_cases(ctx, nbase):
                     m = bytearray(hb)
                     m[pos + k] ^= r.choice([0x01, 0x80, 0xff])
                     out.append(mk(bytes(m) + tail, {lv, "ext-order", "after-common" if cpos == 0 else "before-common", "t=%02x" % t}, note="crit"))
+    # the NAME rule ("a file entry without a name or a directory entry without a path"): -lhd- headers in every combination of
+    # permission type (none / directory / symlink / file), name with and without the `name|target` separator, with and without a path
+    from vlib import archgen as AG
+    for lvl in (0, 1, 2):
+        for perms in (None, 0o40755, 0o120777, 0o100644, 0o120000):
+            for path in (b"", b"d/"):
+                for name in (b"", b"foo", b"foo|bar", b"|", b"foo|"):
+                    if lvl == 0 and not (path + name):
+                        continue
+                    for meth in (b"-lhd-", b"-lh0-"):
+                        hb = AG._member(r, path, name, method=meth, perms=perms, level=lvl)
+                        tail = bytes(r.randrange(256) for _ in range(4))
+                        c = mk(hb + tail, {"L%d" % lvl, "name-rule", "perms=%s" % ("none" if perms is None else oct(perms >> 12))}, note="crit")
+                        # the rule, independently of the parser: a -lhd- entry typed as a symbolic link must carry `name|target`; any other
+                        # -lhd- entry is a directory and must have a path; any other method is a file and must have a name
+                        symlink = perms is not None and (perms & 0o170000) == 0o120000
+                        must_reject = None
+                        if name in (b"", b"foo", b"foo|bar"):
+                            if meth == b"-lhd-":
+                                must_reject = (b"|" not in name) if symlink else (path == b"")
+                            else:
+                                # (level 0 splits the in-header "d/" into path "d/" and an EMPTY but present file name: the rule, in the
+                                # library and in accept_has_name, is about presence)
+                                must_reject = name == b"" and lvl != 0
+                        if must_reject:
+                            c.spec_judge = (lambda co, so, what=("a -lhd- entry with symlink permissions and no target" if (meth == b"-lhd-" and symlink)
+                                                              else "a directory entry without a path" if meth == b"-lhd-" else "a file entry without a name"):
+                                            ("implementation crashed: " + co[:100]) if co.startswith(("CRASH", "TIMEOUT")) else
+                                            ("%s was handed to the caller" % what) if co.startswith("ok ") else None)
+                        out.append(c)
     return out
 
 
